@@ -242,6 +242,8 @@ def exec_dir(case):
 
     R.reset_sim()
     mutsim.apply_knobs(cfg["knobs"])
+    from engines import immsim as _immsim
+    _immsim.apply_knobs({})        # (a check may run other engines in the same process: their knobs must not carry over)
     g = Grid(case["seed"], base, cfg["net"])
     try:
         for i in range(cfg["nservers"]):
